@@ -50,9 +50,9 @@ var scheme = func() *runtime.Scheme {
 // webhook itself rejects, not about what the API server adds).
 type crdClient struct {
 	client.Client
-	crds        map[string]*extv1.CustomResourceDefinition
-	dryWrites   []string
-	realWrites  []string
+	crds       map[string]*extv1.CustomResourceDefinition
+	dryWrites  []string
+	realWrites []string
 }
 
 func (c *crdClient) Get(_ context.Context, key client.ObjectKey, o client.Object, _ ...client.GetOption) error {
@@ -92,7 +92,7 @@ type stubServer struct {
 }
 
 func (s *stubServer) Register(path string, h http.Handler) { s.handlers[path] = h }
-func (s *stubServer) WebhookMux() *http.ServeMux            { return nil }
+func (s *stubServer) WebhookMux() *http.ServeMux           { return nil }
 
 type stubManager struct {
 	manager.Manager
